@@ -56,6 +56,11 @@ package ledger
 //   M4 eval.go validateAbsentOnlineAccounts: duplicate check dropped
 //   M5 eval.go isAbsent: absentFactor 20 -> 19 (multi-account boundary)
 
+// Independent seeded changes: C27-A (a suspended account may be listed expired before its
+// VoteLastValid) DETECTED by the Suspended x VoteLastValid {r, r+1} candidates; C27-B (a
+// failed challenge accepted before the IncentiveEligible check) DETECTED since the
+// challenge-window population was added.
+
 import (
 	"context"
 	"errors"
